@@ -4,6 +4,10 @@ import json, subprocess
 
 # id -> (technique, level text, level note, design ref)
 CHECKS = {
+ "C10": ("history monitor with fresh-state reference: every Execute of a history on one locked OS thread (pooled Runtime provably reused) compared with the same call executed right after draining the pools; reflective hash of every parsed template before/after",
+         "Exploration: histories of 8-32 Execute calls over generated programs that may fail anywhere plus fixed templates failing deep inside yield-with-content/if-let/range (error, function error, string panic escaping Execute), writers failing mid-output, and probe templates exposing '.', yield content, isset() of earlier names, try and block defaults. Each call's bytes and error must equal its fresh-state reference; template trees must hash the same afterwards. The evidence reports how often consecutive executions saw the same *Runtime (the run is inconclusive below 50%).",
+         "Needs the verif hook VerifDrainPools for an exact fresh state (fallback: two GC cycles). Deterministic programs only (single-entry maps, fresh channels and VarMaps per execution). Not run under -race.",
+         "DESIGN.md 3/C10"),
  "C01": ("taint accounting on the output stream under three Set escapers (default HTML, nil, tagging SafeWriter); comparison with the reference evaluator's escaped-exactly-once output",
          "Exploration: generated template sets render data of 17 kinds (specials, NUL, multi-byte runes, values straddling the 4096-byte print buffer) at value sites in every context the property names, as plain actions or ending in a SafeWriter in piped/prefix/call form. For each of the three escaper configurations the real output must equal text verbatim + escaper(value) + writer(value); the tagging escaper makes unescaped, doubly escaped, truncated or reordered values visible byte for byte. Directed: a SafeWriter that is not last must be an error.",
          "Trusts the reference evaluator for control flow and Go's template.HTMLEscapeString/JSEscapeString as the whole-value form of the SafeWriters. Renderer values and rune-aware writers on values longer than the print buffer are out of scope.",
